@@ -50,6 +50,8 @@ def run(chk):
     x = X.atom('x', 'pos'); M = X.atom('M_host', 'pos'); m = X.atom('m_target', 'pos')
     d = X.Decider(seed=chk.seed, k=3 if chk.tier == 'quick' else 10)
     eq = make_eq(chk, d)
+    from .common import ArrayTwin
+    twin = ArrayTwin(chk, 'R17.6', it, d)
     gval, gsrc = scipy_G()
     chk.note_analysed('external', f'G from {gsrc}: {float(gval) if gval else None}')
 
@@ -285,5 +287,6 @@ def run(chk):
     from .common import inplace_lint
     inplace_lint(chk, repo, 'R17.5', ['TidalPy/utilities/conversions/conversions.py'])
     chk.floor('R17.5', 1)
+    twin.finish(floor=6)
     chk.floor('R17.1', 26); chk.floor('R17.2', 17); chk.floor('R17.3', 5); chk.floor('R17.4', 134)
     chk.assume('all inputs positive; cube and square roots are the real positive roots')
